@@ -39,7 +39,7 @@ RULE = (
 )
 ASSUMPTIONS = [
     "draw alphabets: z in {-1.5, 0, 0.7, 2.5}, u in {0, 0.3, 1-2^-24} + ties; nothing is claimed about the chain's invariant law",
-    "mixture model (cluster-weighted regularity) not covered",
+    "mixture model: covered in the thorough tier only, with the cluster-responsibility-weighted regularity of the individual sampler as documented target",
     "alpha compared with the from-scratch formula at rtol 1e-5 (bit-equal on the reference tree); decisions compared exactly with u < alpha(implementation)",
     "start states: prior mode, a perturbed state, the states after one and two scripted sweeps",
 ]
@@ -52,7 +52,7 @@ TEMPS = {"quick": [1.0, 0.5, 0.1], "thorough": [1.0, 0.5, 1.0 / 3.0, 0.1]}
 def bounds(tier):
     return {"deviations": "2 for <=2 decisions else 1" if tier == "quick" else 2, "temperatures": TEMPS[tier],
             "starts": ["mode", "perturbed", "after1sweep"] if tier == "quick" else ["mode", "perturbed", "after1sweep", "after2sweeps"],
-            "models": "representative kinds" if tier == "quick" else "all catalogue kinds except mixture"}
+            "models": "representative kinds" if tier == "quick" else "all catalogue kinds incl. mixture"}
 
 
 # ------------------------------------------------------------------------------------------
@@ -122,14 +122,26 @@ def spied_sample(st, sampler, env, T_inv):
 
 def _alpha_ref(u, indep_before, indep_after, v, is_ind, T_inv):
     a_name, r_name = ("nll_attach_ind", f"nll_regul_{v}_ind") if is_ind else ("nll_attach", f"nll_regul_{v}")
-    b = u.evaluate(indep_before, [a_name, r_name])
-    a = u.evaluate(indep_after, [a_name, r_name])
+    targets = [a_name, r_name] + (["nll_regul_ind_sum_ind"] if is_ind else [])
+    b = u.evaluate(indep_before, targets)
+    a = u.evaluate(indep_after, targets)
     from leaspy.utils.weighted_tensor import WeightedTensor
 
     def t(x):
         return x.weighted_value if isinstance(x, WeightedTensor) else x
 
-    return torch.exp(-1 * ((t(a[r_name]) - t(b[r_name])) * T_inv + (t(a[a_name]) - t(b[a_name]))))
+    def regul(vals):
+        r = t(vals[r_name])
+        if is_ind and r.ndim == 2:
+            # mixture model: one regularity term per cluster, weighted by the individual's cluster responsibilities
+            # (softmax of minus the per-cluster total regularity), as documented in the individual sampler
+            tot = vals["nll_regul_ind_sum_ind"]
+            tot = tot.value if isinstance(tot, WeightedTensor) else tot
+            probs = torch.nn.Softmax(dim=1)(torch.clamp(-tot, -100.0))
+            r = (probs * r).sum(dim=1)
+        return r
+
+    return torch.exp(-1 * ((regul(a) - regul(b)) * T_inv + (t(a[a_name]) - t(b[a_name]))))
 
 
 def analyse(u, kind, v, sampler, std_before, env, spies, ref_before, T_inv):
@@ -411,7 +423,7 @@ QUICK_MODELS = ("logistic_d2_s1_diag", "linear_d2_s1_diag", "shared_d2_s1_diag",
 
 def shards(tier, seed):
     out = []
-    names = [n for n in MODEL_SPECS if not n.startswith("mixture")]
+    names = list(MODEL_SPECS)
     if tier == "quick":
         names = [n for n in names if n in QUICK_MODELS]
     for name in names:
